@@ -402,6 +402,7 @@ def freelist_record(I, entry, t, x=None):
     if x is not None:
         sx = view.stamp_term(x)
         rec["x_stamp_post"] = repr(sx)
+        rec["x_stamp_from_slot"] = sx.sym in (None, ("st", x))
         rec["x_stamp_range"] = list(st.term_bounds(sx))
         rec["x_stamp_pre_range"] = list(st.bounds.get(("st", x), (None, None)))
     if rec["returned"] is not None:
@@ -435,6 +436,18 @@ def freelist_entry(I, entry):
         st.meta["case"] = "x live, unlinked"
         I.push_call(st, "crate::arena::Arena<T>::free_node", [driver.arena_ref(), driver.arg_id(st, x)], None, None)
         I.explore([st], lambda t: records.append(freelist_record(I, entry, t, x)))
+        # the same call through an id of an earlier generation of the slot (remove()/remove_subtree() act on whatever lives in the slot):
+        # the new generation must still be derived from the slot's own stamp
+        st = State()
+        x = st.new_node(True, "arg:freed")
+        for f in LINKS:
+            st.set_h0_link(x, f, None)
+        st.meta["case"] = "x live, unlinked, addressed through an id of an earlier generation"
+        old = ("ast", x)
+        st.bounds[old] = (0, I16_MAX)
+        stale = VStruct(NODEID, (("index1", VNonZero(Lin(1, ("idx", x), 1))), ("stamp", VStruct(STAMP, (("0", VInt(Lin(0, old, 1), 16, True)),)))))
+        I.push_call(st, "crate::arena::Arena<T>::free_node", [driver.arena_ref(), stale], None, None)
+        I.explore([st], lambda t: records.append(dict(freelist_record(I, entry, t, x), stale_id=True)))
     elif entry == "clear":
         st = State()
         st.meta["case"] = "any arena"
